@@ -30,6 +30,19 @@ func validValueFor(f field.Field) (reflect.Value, bool) {
 	return reflect.Value{}, false
 }
 
+// a JSON value UnmarshalJSON accepts for a primitive (sub)field of this kind
+func validJSONFor(f field.Field) (string, bool) {
+	switch f.(type) {
+	case *field.String:
+		return `"Q7"`, true
+	case *field.Numeric:
+		return `7`, true
+	case *field.Binary, *field.Hex:
+		return `"5A"`, true
+	}
+	return "", false
+}
+
 func structPtr(fields []reflect.StructField, vals []reflect.Value) reflect.Value {
 	t := reflect.StructOf(fields)
 	p := reflect.New(t)
@@ -100,6 +113,33 @@ func failedWriteFindings(ms *iso8583.MessageSpec) (fs []Finding) {
 				}
 			}
 		}
+		// (1j) the same through UnmarshalJSON. The keys of a JSON object are applied in the order of a Go map, which is
+		// random: the document is tried on new messages until the failure has come after the first subfield (eight
+		// tries; when the library leaves nothing behind no try can produce a finding)
+		if t1, t2, ok := twoPrims(c); ok {
+			j1, ok1 := validJSONFor(c.Spec().Subfields[t1])
+			j2, ok2 := validJSONFor(c.Spec().Subfields[t2])
+			if ok1 && ok2 {
+				for try := 0; try < 8; try++ {
+					m := iso8583.NewMessage(ms)
+					m.MTI("0100")
+					if err := m.UnmarshalJSON([]byte(fmt.Sprintf(`{"%d":{%q:%s,%q:{"x":1}}}`, id, t1, j1, t2))); err == nil {
+						break
+					}
+					if _, listed := m.GetFields()[id]; listed {
+						break
+					}
+					if err := m.UnmarshalJSON([]byte(fmt.Sprintf(`{"%d":{%q:%s}}`, id, t2, j2))); err != nil {
+						break
+					}
+					if mc, ok := m.GetField(id).(*field.Composite); ok {
+						if _, there := mc.GetSubfields()[t1]; there {
+							return []Finding{{"c14-failed-write-resurrected", fmt.Sprintf("UnmarshalJSON into element %d failed at subfield %s after writing subfield %s (the element stayed unpopulated); a later document that writes only %s shows %s as well", id, t2, t1, t2, t1)}}
+						}
+					}
+				}
+			}
+		}
 		// (2) one level down, the element already populated: the failure lies in a nested composite
 		for tn, sf := range c.Spec().Subfields {
 			nc, ok := sf.(*field.Composite)
@@ -144,6 +184,30 @@ func failedWriteFindings(ms *iso8583.MessageSpec) (fs []Finding) {
 				if inner, ok := mc.GetSubfields()[tn].(*field.Composite); ok {
 					if _, there := inner.GetSubfields()[t1]; there {
 						return []Finding{{"c14-failed-write-resurrected", fmt.Sprintf("Marshal into subfield %d.%s failed at %s after writing %s (the subfield stayed unpopulated); a later Marshal that writes only %s shows %s as well", id, tn, t2, t1, t2, t1)}}
+					}
+				}
+			}
+			// (2j) the same through UnmarshalJSON (tried up to eight times: the key order of an object is random)
+			js, oks := validJSONFor(c.Spec().Subfields[sib])
+			j1, ok1 := validJSONFor(nc.Spec().Subfields[t1])
+			j2, ok2 := validJSONFor(nc.Spec().Subfields[t2])
+			for try := 0; oks && ok1 && ok2 && try < 8; try++ {
+				m := iso8583.NewMessage(ms)
+				m.MTI("0100")
+				if err := m.UnmarshalJSON([]byte(fmt.Sprintf(`{"%d":{%q:%s}}`, id, sib, js))); err != nil {
+					break
+				}
+				if err := m.UnmarshalJSON([]byte(fmt.Sprintf(`{"%d":{%q:{%q:%s,%q:{"x":1}}}}`, id, tn, t1, j1, t2))); err == nil {
+					break
+				}
+				if err := m.UnmarshalJSON([]byte(fmt.Sprintf(`{"%d":{%q:{%q:%s}}}`, id, tn, t2, j2))); err != nil {
+					break
+				}
+				if mc, ok := m.GetField(id).(*field.Composite); ok {
+					if inner, ok := mc.GetSubfields()[tn].(*field.Composite); ok {
+						if _, there := inner.GetSubfields()[t1]; there {
+							return []Finding{{"c14-failed-write-resurrected", fmt.Sprintf("UnmarshalJSON into subfield %d.%s failed at %s after writing %s (the subfield stayed unpopulated); a later document that writes only %s shows %s as well", id, tn, t2, t1, t2, t1)}}
+						}
 					}
 				}
 			}
